@@ -384,6 +384,29 @@ amount expression, re-opens this obligation). Of these, the native denomination 
 the message. -/
 theorem mint_burn_sites : Sekai.Gen.BankFlows.mintBurn = expectedMintBurn := by decide +kernel
 
+/-- **an accepted owner edit leaves the recorded supply within the (new) cap** — the cap bounds the supply after every
+accepted write of the registry, not only after mints -/
+theorem owner_edit_supply_within_cap (t t' : TokenInfo) (sender : Nat) (newCap : Int) (newOwner : Nat) (nd : Bool)
+    (h : ownerEdit t sender newCap newOwner nd = some t') (hcap : 0 < t'.cap) : t'.supply ≤ t'.cap := by
+  unfold ownerEdit at h
+  split at h
+  · cases h
+  · split at h
+    · cases h
+    · simp only at h
+      split at h
+      · rename_i hc
+        cases h
+        unfold capOk at hc
+        simp only [Bool.not_eq_true', Bool.and_eq_false_iff, decide_eq_false_iff_not] at hc
+        rcases hc with hc | hc
+        · exact absurd hcap hc
+        · simp only at hc ⊢; omega
+      · cases h
+
+example : ownerEdit ⟨800, 1000, 3, false⟩ 3 500 3 false = none := by decide
+example : (ownerEdit ⟨800, 1000, 3, false⟩ 3 900 3 false).isSome = true := by decide
+
 /-! ### Application wiring (table `Gen.App`) -/
 
 /-- the module accounts that may mint, and those that may burn -/
